@@ -17,10 +17,6 @@ NOT_APPLICABLE = {
     'C18': 'blob bookkeeping after restart is the SQL of sync_missing_blobs/add_blobs/delete_blobs_from_db plus '
            'directory scans; same reason as C09 (the only pure-Python part, two set operations, is too thin to carry '
            'the property)',
-    'C04': 'the property is that libsecp256k1 ECDSA signatures made by the wallet verify under an independent secp256k1 '
-           'implementation and stop verifying under any mutation: elliptic-curve arithmetic inside a C library (coincurve) and '
-           '256-bit modular multiplication are outside what symbolic execution with z3 decides within reach; only the byte layout '
-           'of the signed pre-images under an ideal signature scheme would be decidable, which is too thin to carry the property',
 }
 PENDING = 'solver-based harness not built yet in this tree (see DESIGN.md section 4 for the plan)'
 
